@@ -1,6 +1,6 @@
 (* C09 correspondence: how the observed answers of acl.Compile / CompiledRuleSet.Match /
    aclEngine.handle are compared with the model.  Used by the generated run/C09/cases_*.v files. *)
-From Hy Require Import lib.Harness model.C09_ACL proof.C09_ACL model.C09_Conc model.C09_IPString model.C09_Text.
+From Hy Require Import lib.Harness model.C09_ACL proof.C09_ACL model.C09_Conc model.C09_IPString model.C09_Text model.C09_Engine.
 From Coq Require Import ZArith.
 Local Open Scope N_scope.
 
@@ -33,6 +33,13 @@ Inductive case :=
 (* engine built by NewACLEngineFromString from the TEXT of a rule file (ParseTextRules ; Compile), then as CEng *)
 | CEngT (entries : list (str * N)) (text : str) (hosts : list host)
         (qs : list (nat * N * N)) (pool : list (N * N * list byte * list byte)) (exp : option (list nat))
+(* engine entry points TCP / UDP / CheckUDP (model/C09_Engine.v) of an engine built from the TEXT of a rule file, called with
+   requests whose ResolveInfo is nil (mode 0), has no error (1) or carries an error next to its addresses (2).
+   qs: (host index, entry point 1 TCP / 2 UDP / 3 CheckUDP, port).  Observed per call: outbound id, method that ran on it
+   (0 = none: errRejected from the built-in reject), rewritten?, the ResolveInfo the outbound saw (v4, v6, error flag;
+   all empty / 0 when nil) and the Host it saw. *)
+| CEngX (entries : list (str * N)) (text : str) (hosts : list (host * N))
+        (qs : list (nat * N * N)) (pool : list (N * N * N * list byte * list byte * N * list byte)) (exp : option (list nat))
 with hev := HStart (q : nat * N * N) | HDone (i : nat).
 
 Definition mkq (hosts : list host) (q : nat * N * N) : query :=
@@ -54,6 +61,25 @@ Definition eng_eqb (r : N * rewrite) (o : N * N * list byte * list byte) : bool 
   match snd r with
   | RwNone => (rw =? 0) && beqb v4 [] && beqb v6 []
   | RwHijack _ a b => (rw =? 1) && beqb v4 a && beqb v6 b
+  end.
+
+Definition op_of (n : N) : eop := if n =? 1 then OpTCP else if n =? 2 then OpUDP else OpCheckUDP.
+Definition op_code (o : eop) : N := match o with OpTCP => 1 | OpUDP => 2 | OpCheckUDP => 3 end.
+
+Definition ri_of (h : host) (mode : N) : option rinfo :=
+  if mode =? 0 then None else Some (mkRI (h_v4 h) (h_v6 h) (mode =? 2)).
+
+Definition engx_eqb (reject : N) (rwm : rewrite) (r : N * eop * reqx) (o : N * N * N * list byte * list byte * N * list byte) : bool :=
+  let '(ob, opseen, rw, v4, v6, err, hostseen) := o in
+  let '(mob, mop, after) := r in
+  (mob =? ob) &&
+  (match dispatched reject mob mop with Some x => opseen =? op_code x | None => opseen =? 0 end) &&
+  (* rewritten = the outbound did not get the caller's Host and ResolveInfo object *)
+  (match rwm with RwNone => rw =? 0 | RwHijack _ _ _ => rw =? 1 end) &&
+  beqb (rx_host after) hostseen &&
+  match rx_ri after with
+  | Some ri => beqb (ri_v4 ri) v4 && beqb (ri_v6 ri) v6 && (if ri_err ri then err =? 1 else err =? 0)
+  | None => beqb v4 [] && beqb v6 [] && (err =? 0)
   end.
 
 (* observed schedule -> schedule of the LTS of model/C09_Conc.v; n = number of callers so far *)
@@ -131,6 +157,23 @@ Definition check (c : case) : bool :=
               all2 eng_eqb
                    (map (fun q => let h := nth (fst (fst q)) hosts (mkHost [] [] []) in
                                   engine_handle rs d (mkReq (h_name h) (snd q) (Some (h_v4 h, h_v6 h))) (snd (fst q))) qs) e
+          | _, _ => false
+          end
+      | Err EInvalid => match exp with None => true | Some _ => false end
+      | _ => false
+      end
+  | CEngX entries text hosts qs pool exp =>
+      let m := outbounds_to_map entries DIRECT REJECT in
+      match compile_text m text (Z.of_N AclCacheSize) with
+      | Ok rs =>
+          match exp, map_get m s_default with
+          | Some ei, Some d =>
+              let e := map (fun i => nth i pool (77777, 0, 0, [], [], 0, [])) ei in
+              let reqs := map (fun q : nat * N * N =>
+                                 let hm := nth (fst (fst q)) hosts (mkHost [] [] [], 0) in
+                                 (mkReqX (h_name (fst hm)) (snd q) (ri_of (fst hm) (snd hm)), op_of (snd (fst q)))) qs in
+              all2 (fun ao o => engx_eqb REJECT (snd (engine_handle rs d (reqx_forget (fst ao)) (op_proto (snd ao))))
+                                         (engine_call ip_string rs d (fst ao) (snd ao)) o) reqs e
           | _, _ => false
           end
       | Err EInvalid => match exp with None => true | Some _ => false end
